@@ -230,6 +230,110 @@ def run_case(params: dict) -> dict:
         sim.close()
 
 
+def run_transfer(params: dict) -> dict:
+    """the real PeerConnection.send_file / receive_file of a full client with a limit that changes while the transfer
+    runs; observation = bytes on the simulated file connection per virtual-time window"""
+    import os
+    import shutil
+    import tempfile
+    from ..transferworld import TransferWorld
+    from ..simnet import MemTransport
+    from ..common import ERRORS
+    from aioslsk.protocol import messages as M
+    ERRORS.records.clear()
+    scratch = '/dev/shm' if os.path.isdir('/dev/shm') else tempfile.gettempdir()
+    base = tempfile.mkdtemp(prefix='c20t-', dir=scratch)
+    viols = []
+    direction = params['direction']
+    l1, l2, at, size = params['l1'], params['l2'], params['at'], params['size']
+    key = 'upload_speed_kbps' if direction == 'upload' else 'download_speed_kbps'
+    try:
+        tw = TransferWorld(base_dir=base, horizon=400.0, settings={'network': {'limits': {key: l1}},
+                                                                    'transfers': {'report_interval': 30.0}})
+        try:
+            bob = tw.remote('bob', '10.0.9.1', 7300)
+            data = bytes(range(256)) * (size // 256)
+            events: list = []      # (time, bytes) of file data moved over the file connection
+
+            if direction == 'upload':
+                # what arrives on the downloader's file connection, with the time of arrival
+                orig_got = bob._got_file_bytes
+
+                def got(pc, info, chunk):
+                    events.append((tw.world.now(), len(chunk)))
+                    orig_got(pc, info, chunk)
+                bob._got_file_bytes = got
+                tw.share_file('music/f.bin', data)
+                tw.start(scan=True)
+                pc = bob.ensure_p_conn()
+                pc.send(M.PeerTransferQueue.Request(tw.remote_path_of('music/f.bin')))
+            else:
+                bob.files['@@abcde\\f.bin'] = data
+                bob.segment = 1024
+                tw.start(scan=False)
+
+                async def dl():
+                    return await tw.client.transfers.download('bob', '@@abcde\\f.bin')
+                tw.world.op('u', 'download', dl, record=False)
+                # what the library takes out of its socket buffer is observed through the progress counter
+                last = [0]
+
+                def progress():
+                    trs = tw.client.transfers.get_downloads()
+                    if trs and trs[0].bytes_transfered > last[0]:
+                        events.append((tw.world.now(), trs[0].bytes_transfered - last[0]))
+                        last[0] = trs[0].bytes_transfered
+                tw.world.boundary_hooks.append(progress)
+            tw.world.run_default_for(at)
+            net = tw.client.network
+            (net.set_upload_speed_limit if direction == 'upload' else net.set_download_speed_limit)(l2)
+            t_change = tw.world.now()
+            tw.world.run_default_for(params.get('after', 60.0))
+            label = f"{direction} {size} bytes, limit {l1} -> {l2} KiB/s at t={at}"
+
+            def limit_at(t):
+                return l1 if t < t_change else l2
+
+            def allowed(t1, t2):
+                # integral of the limit + one second of burst of the largest limit in force in the window + one chunk
+                if (t1 < t_change and l1 == 0) or (t2 >= t_change and l2 == 0):
+                    return None
+                a = max(0.0, min(t2, t_change) - t1) * l1 * 1024 if t1 < t_change else 0.0
+                b = max(0.0, t2 - max(t1, t_change)) * l2 * 1024 if t2 > t_change else 0.0
+                burst = max(limit_at(t1), limit_at(t2)) * 1024
+                return a + b + burst + 2 * 8192
+            ts = events
+            for i in range(len(ts)):
+                total = 0
+                for j in range(i, len(ts)):
+                    total += ts[j][1]
+                    cap = allowed(ts[i][0], ts[j][0])
+                    if cap is not None and total > cap:
+                        viols.append(Violation('limit-exceeded', f"{label}: {total} bytes moved in [{ts[i][0]:.3f},{ts[j][0]:.3f}] "
+                                               f"> bound {cap:.0f}", signature=f'C20:transfer-limit-exceeded:{direction}'))
+                        break
+                if viols:
+                    break
+            moved = sum(n for _, n in ts)
+            if l2 == 0:
+                late = sum(n for t, n in ts if t > t_change + 1.5)
+                if late:
+                    viols.append(Violation('throttled-without-limit', f"{label}: {late} bytes were still moved later than 1.5 s "
+                                           f"after the limit was removed", signature=f'C20:throttled-without-limit:{direction}'))
+            else:
+                # bounded waiting: the transfer finishes in about size / limit seconds
+                need = (size - sum(n for t, n in ts if t <= t_change)) / (l2 * 1024.0)
+                if moved < size - 8 and tw.world.now() > t_change + need + 10.0:
+                    viols.append(Violation('transfer-stalled', f"{label}: {moved} of {size} bytes moved by t={tw.world.now():.0f}",
+                                           signature=f'C20:transfer-stalled:{direction}'))
+            return {'violations': viols, 'transitions': tw.world.loop.batches, 'grants': len(ts),
+                    'obs': tuple((round(t, 2), n) for t, n in ts[:40])}
+        finally:
+            tw.close()
+    finally:
+        shutil.rmtree(base, ignore_errors=True)
+
+
 def scenarios(tier: str):
     out = []
     limits = [1, 2, 10, 1000, 10000]
@@ -280,6 +384,15 @@ def scenarios(tier: str):
     chunks = []
     for i in range(0, len(out), 25):
         chunks.append({'cases': out[i:i + 25]})
+    # the limit changes while a real transfer is inside send_file / receive_file
+    tr = []
+    for direction in ('upload', 'download'):
+        # (from unlimited the transfer is over within one virtual instant: nothing to change during it)
+        for l1, l2 in ((4, 0), (4, 1), (1, 8), (8, 2), (2, 2), (2, 0)):
+            for at in (1.5, 3.0):
+                tr.append({'transfer': True, 'direction': direction, 'l1': l1, 'l2': l2, 'at': at, 'size': 61440})
+    for i in range(0, len(tr), 3):
+        chunks.append({'cases': tr[i:i + 3]})
     return chunks
 
 
@@ -292,7 +405,7 @@ def run_scenario(params: dict, tier: str) -> dict:
     sample = None
     states = 0
     for case in params['cases']:
-        out = run_case(case)
+        out = run_transfer(case) if case.get('transfer') else run_case(case)
         executions += 1
         transitions += out['transitions']
         states += out['grants']
@@ -311,7 +424,7 @@ def run_scenario(params: dict, tier: str) -> dict:
 def replay(params: dict, choices: list, tier: str = 'quick') -> dict:
     res = []
     for case in params['cases']:
-        out = run_case(case)
+        out = run_transfer(case) if case.get('transfer') else run_case(case)
         if out['violations']:
             res.append({'case': case, 'violations': [str(v) for v in out['violations']], 'grants': list(out['obs'][:30])})
     return {'violations': res}
